@@ -51,6 +51,14 @@ pub struct BusInner {
     own_tx: Vec<Vec<(i64, i64)>>,
     tx_end_ns: Vec<i64>,
     pub next_fault: Vec<Option<Fault>>,
+    /// like `next_fault`, but waits for the node's next token pass (`DC da sa`, da != sa)
+    pub next_token_fault: Vec<Option<Fault>>,
+    /// per node: number of telegrams per source address that a reference receive path (reference
+    /// decoder, everything buffered is discarded on a decode error) delivered from the very buffers
+    /// the node's receive helpers were shown
+    pub ref_sa_seen: Vec<Vec<u32>>,
+    /// per node: leading buffered bytes that the reference receive path would already have discarded
+    ref_taint: Vec<usize>,
     /// everything on the wire inside these windows is garbled
     pub corrupt_windows: Vec<(i64, i64)>,
     /// when true, a node does not receive while it is itself transmitting
@@ -86,7 +94,10 @@ impl BusInner {
             self.own_tx[id].remove(0);
         }
         let mut wire = data.clone();
-        let fault = self.next_fault[id].take();
+        let mut fault = self.next_fault[id].take();
+        if fault.is_none() && data.len() == 3 && data[0] == 0xDC && data[1] != data[2] {
+            fault = self.next_token_fault[id].take();
+        }
         let mut dropped = false;
         match &fault {
             Some(Fault::Drop) => dropped = true,
@@ -186,6 +197,9 @@ impl Bus {
             own_tx: vec![vec![]; nodes],
             tx_end_ns: vec![i64::MIN; nodes],
             next_fault: vec![None; nodes],
+            next_token_fault: vec![None; nodes],
+            ref_sa_seen: vec![vec![0; 128]; nodes],
+            ref_taint: vec![0; nodes],
             corrupt_windows: vec![],
             half_duplex: true,
         })))
@@ -250,7 +264,8 @@ impl ProfibusPhy for SimPhy {
     where
         F: FnOnce(&mut [u8]) -> (usize, R),
     {
-        let mut buffer = vec![0u8; 256];
+        // like the hardware PHYs, hand out a long-lived buffer with stale contents
+        let mut buffer: Vec<u8> = (0..256usize).map(|i| (i as u8).wrapping_mul(151).wrapping_add(0x5B) | 0x08).collect();
         let (length, res) = f(&mut buffer);
         buffer.truncate(length);
         self.bus
@@ -271,6 +286,27 @@ impl ProfibusPhy for SimPhy {
         };
         let (drop_n, res) = f(&data);
         let drop_n = drop_n.min(data.len());
+        if !data.is_empty() {
+            // reference receive path: its buffer is the suffix data[taint..] of the real one (the
+            // reference may already have discarded more than the code under test did)
+            let mut b = self.bus.0.borrow_mut();
+            let taint = b.ref_taint[self.id].min(data.len());
+            let mut ref_consumed = taint;
+            if taint < data.len() {
+                match crate::refcodec::decode(&data[taint..]) {
+                    crate::refcodec::RefVerdict::Accept(fr, n) => {
+                        if let Some(sa) = fr.sa() {
+                            b.ref_sa_seen[self.id][usize::from(sa & 0x7F)] += 1;
+                        }
+                        ref_consumed = taint + n;
+                    }
+                    crate::refcodec::RefVerdict::Reject => ref_consumed = data.len(),
+                    crate::refcodec::RefVerdict::Short { .. } => {}
+                }
+            }
+            // whatever the code under test drops beyond that is gone for the reference as well
+            b.ref_taint[self.id] = ref_consumed.saturating_sub(drop_n);
+        }
         if !data.is_empty() && std::env::var("PBVERIF_RXDUMP").is_ok() {
             eprintln!("RX node {} t={} buf={:02x?} drop={}", self.id, now.total_micros(), data, drop_n);
         }
@@ -287,6 +323,14 @@ pub struct ChunkPhy {
     pub buf: Vec<u8>,
     pub sent: Vec<Vec<u8>>,
     pub consumed: u64,
+    /// bytes that arrive right before the k-th `receive_data` call counted from `calls == 0` (the
+    /// hardware PHYs read their UART on every call, so data can arrive in the middle of one
+    /// invocation of a receive helper)
+    pub arrival: Option<(usize, Vec<u8>)>,
+    pub calls: usize,
+    /// calls are counted (and the arrival happens) only while this is set: during the invocation
+    /// under test, not during the observations of the check itself
+    pub counting: bool,
 }
 
 impl ProfibusPhy for ChunkPhy {
@@ -297,7 +341,8 @@ impl ProfibusPhy for ChunkPhy {
     where
         F: FnOnce(&mut [u8]) -> (usize, R),
     {
-        let mut buffer = vec![0u8; 256];
+        // like the hardware PHYs, hand out a long-lived buffer with stale contents
+        let mut buffer: Vec<u8> = (0..256usize).map(|i| (i as u8).wrapping_mul(151).wrapping_add(0x5B) | 0x08).collect();
         let (length, res) = f(&mut buffer);
         buffer.truncate(length);
         if length > 0 {
@@ -309,6 +354,13 @@ impl ProfibusPhy for ChunkPhy {
     where
         F: FnOnce(&[u8]) -> (usize, R),
     {
+        if self.counting {
+            if matches!(&self.arrival, Some((k, _)) if *k == self.calls) {
+                let (_, bytes) = self.arrival.take().unwrap();
+                self.buf.extend_from_slice(&bytes);
+            }
+            self.calls += 1;
+        }
         let (drop_n, res) = f(&self.buf);
         let drop_n = drop_n.min(self.buf.len());
         self.buf.drain(..drop_n);
